@@ -29,7 +29,7 @@ E32 = 1.1920929e-07
 def gen_cases(tier, seed):
     rng = np.random.default_rng(seed + 61)
     cases = []
-    nrand = 3 if tier == "quick" else 14
+    nrand = 3 if tier == "quick" else 50
     for fam in zoo.ALL_FAMS:
         cfgs = zoo.configs([fam], tier, seed + 19, nrand)
         for ci, cfg in enumerate(cfgs):
@@ -37,13 +37,13 @@ def gen_cases(tier, seed):
             cases.append({"kind": "zoo", "cfg": cfg, "policy": pol, "seed": env.subseed(seed, "c19", fam, ci), "world": "f32",
                           "batch": 6 if tier == "quick" else 10, "cost": 8 if "umnn" in fam else 2})
     # batch-norm in training mode on data that is not centred (variance by cancellation is the classic failure)
-    for i in range(6 if tier == "quick" else 40):
+    for i in range(6 if tier == "quick" else 150):
         cases.append({"kind": "bn_train", "F": 1 + i % 4, "offset": [0.0, 3.0, 10.0, 30.0][i % 4], "spread": [1.0, 0.1, 0.3][i % 3],
                       "seed": env.subseed(seed, "c19bn", i), "world": "f32", "cost": 1})
-    for i in range(20 if tier == "quick" else 200):
+    for i in range(20 if tier == "quick" else 600):
         cases.append({"kind": "flow", "cfg": dzoo.sample_flow_cfg(rng), "seed": env.subseed(seed, "c19f", i), "world": "f32",
                       "cost": 3})
-    npts = 2000 if tier == "quick" else 20000
+    npts = 2000 if tier == "quick" else 100000
     for fam in ("linear", "quadratic", "cubic", "rq"):
         for ps in (0.3, 1.0, 1.5):
             for K in (2, 5, 10):
